@@ -27,8 +27,12 @@ pub fn any_lt() -> LT {
 use dvb_gse_rust::crc::CrcCalculator;
 use dvb_gse_rust::gse_encap::{ContextFrag, EncapMetadata, Encapsulator};
 
-/// Backing-array size of the lattice tier: lengths range over 0..=BIG.
+/// Upper end of the lattice tier: lengths range over 0..=BIG (quick: 70000, as in the
+/// properties' quantifiers; thorough: 2^20).
+#[cfg(not(feature = "deep"))]
 pub const BIG: usize = 70000;
+#[cfg(feature = "deep")]
+pub const BIG: usize = 1 << 20;
 
 pub fn any_len(max: usize) -> usize {
     let n: usize = kani::any();
